@@ -400,6 +400,10 @@ def run_models(chk: Check, invariants):
         f.write(f"SPECIFICATION Spec\nCONSTANTS\n MaxSegs = {3 if quick else 4}\n GuardMax = 14\n Pinned = FALSE\n"
                 + "".join(f"INVARIANT {i}\n" for i in invariants) + "CHECK_DEADLOCK FALSE\n")
     chk.model("p1", "MC_ModeDReader", path, workers=16, coverage=False, timeout=1500)
+    ws = [w for inv, wl in (("CleanDelivered", ["W_TwoDelivered", "W_TailThenClean"]), ("Resync", ["W_ResyncBinds"]), ("BufBounded", ["W_RetainedAtGuard"]))
+          if inv in invariants for w in wl]
+    if ws:
+        chk.witnesses("p1", "MC_ModeDReader", "CONSTANTS\n MaxSegs = 3\n GuardMax = 14\n Pinned = FALSE\n", ws)
 
 
 def replay_gen(chk: Check):
